@@ -306,9 +306,11 @@ def _coord():
 def s_pts():
     @st.composite
     def s(draw):
-        c = draw(objs.shape_case(d=2, with_landmarks=False))
+        # the quantifier includes 3-D shapes: one case in eight is 3-D (point clouds and graphs; meshes alike)
+        d = draw(st.sampled_from([2, 2, 2, 2, 2, 2, 2, 3]))
+        c = draw(objs.shape_case(d=d, with_landmarks=False))
         n = len(c["pts"])
-        c["pts"] = draw(st.lists(st.lists(_coord(), min_size=2, max_size=2), min_size=n, max_size=n))
+        c["pts"] = draw(st.lists(st.lists(_coord(), min_size=d, max_size=d), min_size=n, max_size=n))
         return {"shape": c, "file": draw(st.sampled_from(PTS_FILES)), "as_path": draw(st.booleans())}
 
     return s()
@@ -320,13 +322,24 @@ def c_pts(case, ctx):
     want = np.array(c["pts"], dtype=float)
     ctx.event("kind=" + c["kind"])
     ctx.nontrivial(bool((np.abs(want[:, 0] - want[:, 1]) > 0.01).any()))
+    ctx.event("d=%d" % want.shape[1])
     with _Tmp() as t:
         p = os.path.join(t.root, case["file"])
-        mio.export_landmark_file(s, _as_fp(p, case["as_path"]))
+        try:
+            mio.export_landmark_file(s, _as_fp(p, case["as_path"]))
+        except ValueError as e:
+            # a format that cannot hold the data may refuse it (never for 2-D)
+            ctx.expect(want.shape[1] != 2, "pts.2d_export_refused", str(e))
+            ctx.expect(not os.path.exists(p) or os.path.getsize(p) == 0, "pts.refused_export_left_data_behind", p)
+            return
         res = mio.import_landmark_file(_as_fp(p, not case["as_path"]))
         if not ctx.expect(isinstance(res, dict) and len(res) == 1, "pts.result", lambda: repr(res)):
             return
         back = list(res.values())[0]
+    if want.shape[1] == 3 and isinstance(back, PointCloud) and back.points.shape == (want.shape[0], 2):
+        # exactly this: the export was accepted and the third coordinate is gone
+        ctx.fail("pts.3d_truncated_to_2d", "3-D %s with %d points came back with shape %r" % (c["kind"], want.shape[0], back.points.shape))
+        return
     if not ctx.expect(isinstance(back, PointCloud) and back.points.shape == want.shape, "pts.shape",
                       lambda: "%s %r" % (type(back).__name__, getattr(back, "points", np.zeros(0)).shape)):
         return
